@@ -22,7 +22,24 @@ THEOREMS = [
     {"name": "C09b_pause_not_transparent_for_status_reading_condition", "strength": "R",
      "text": "a condition reading $__state.status sees the pause (replayed on the engine): transparency can only hold for "
              "expressions that do not read the engine's bookkeeping (known finding C16-dunder-direct-variable)"},
-    {"name": "(tested, not proved) outcome equal to the unpaused twin; paused exactly when the last action reports",
+    {"name": "C09c_report_commutes_with_pause_partial / C09c_report_commutes_with_status_override_partial / "
+             "C09c_reports_commute_with_status_override_partial (props/C09c.v)", "strength": "P",
+     "text": "WHOLE-CALL COMMUTATION for plain tasks (no item tables, no engine-command targets), every evaluator that does "
+             "not read __state: processing any report (late, duplicate, malformed ones included) on the paused state and on "
+             "the running state gives equal results and states equal up to workflow status, terminal flags and the error log "
+             "-- transitions, publishes, staging, the retry gate and re-entry, logging and raise/return all commute; lifted "
+             "to lists of reports"},
+    {"name": "C09c_pause_resume_history_partial / C09c_pause_reports_resume_poll_partial / C09c_poll_commutes_with_resuming / "
+             "C09c_resume_at_rest", "strength": "P",
+     "text": "HISTORIES: inserting a pause request before a block of reports and a resume request at rest yields the same "
+             "traces, a state equal to the unpaused one except the status (resuming), and the next poll offers the same tasks "
+             "(equal up to the __state entry), as long as the unpaused run is still running with an active task after each "
+             "report but the last"},
+    {"name": "C09c_completion_under_pause_is_not_transparent", "strength": "R",
+     "text": "the excluded case is real (replayed on the engine): when the report at which the UNPAUSED run completes the "
+             "workflow is processed while pausing, the task is not flagged terminal, so after resume the output is rendered "
+             "without its context (r = 7 vs r = null) -- the pause-side face of finding D5a"},
+    {"name": "(tested, not proved) outcome equal to the unpaused twin with items / engine commands; paused exactly when the last action reports",
      "strength": "T", "text": "monitor c09: pause inserted before sampled (quick) / every (thorough) event of the "
                               "simulated history, resume when at rest, compared with the unpaused run (the whole-call "
                               "commutation strip(update e (pause c)) = strip(update e c) is not proved)"},
